@@ -121,6 +121,7 @@ class Ctx:
         self.nfresh = 0
         self.unknown_feas = 0
         self.implied = {}  # ast id -> truth value already implied by the path condition
+        self.eqs = []  # (var, var|numeral) equalities of the path, applied in order
 
     # -- feasibility ---------------------------------------------------------------
     def _full_check(self, extra, want_model=False, mult=2):
@@ -160,8 +161,61 @@ class Ctx:
             return True  # over-approximate: keep the branch, the path end decides
         return r == z3.sat
 
+    def _note_equality(self, e):
+        """remember var == var / var == numeral facts of the path as a substitution"""
+        if not (z3.is_app(e) and e.decl().kind() == z3.Z3_OP_EQ):
+            return
+        a, b = e.children()
+        a, b = self.subst(a), self.subst(b)
+
+        def isvar(x):
+            return z3.is_const(x) and x.decl().kind() == z3.Z3_OP_UNINTERPRETED
+
+        if isvar(a) and (isvar(b) or z3.is_rational_value(b)) and not a.eq(b):
+            self.eqs.append((a, b))
+        elif isvar(b) and z3.is_rational_value(a):
+            self.eqs.append((b, a))
+
+    def subst(self, term):
+        for a, b in self.eqs:
+            term = z3.substitute(term, (a, b))
+        return term
+
+    def close_equalities(self):
+        """find var == var facts implied by the (linear part of the) path condition, e.g. from
+        |x - y| < 1e-9 together with a separation assumption; extends the substitution"""
+        if getattr(self, "_closed_at", -1) == len(self.path):
+            return
+        self._closed_at = len(self.path)
+        vs = [self.subst(v) for v in self.vars.values()]
+        seen, uniq = set(), []
+        for v in vs:
+            if z3.is_const(v) and v.decl().kind() == z3.Z3_OP_UNINTERPRETED and v.get_id() not in seen:
+                seen.add(v.get_id())
+                uniq.append(v)
+        if self.s.check() != z3.sat:
+            return
+        m = self.s.model()
+        vals = [m.eval(v, model_completion=True) for v in uniq]
+        for i, a in enumerate(uniq):
+            for k in range(i + 1, len(uniq)):
+                b = uniq[k]
+                if not vals[i].eq(vals[k]):
+                    continue  # a model separates them: not implied
+                a2, b2 = self.subst(a), self.subst(b)
+                if a2.eq(b2):
+                    continue
+                self.s.push()
+                self.s.add(a2 != b2)
+                r = self.s.check()
+                self.s.pop()
+                STATS["feas_queries"] += 1
+                if r == z3.unsat and z3.is_const(b2) and b2.decl().kind() == z3.Z3_OP_UNINTERPRETED:
+                    self.eqs.append((b2, a2))
+
     def _add(self, e):
         self.path.append(e)
+        self._note_equality(e)
         if _nonlinear(e):
             self.nl.append(e)
         else:
@@ -426,6 +480,22 @@ def _den_mul(d1, d2):
     return tuple(m[i] for i in sorted(m))
 
 
+def _cancel(n, d):
+    """numerator n against denominator atoms d: returns (n', d') with one common atom removed;
+    n' is None when n was exactly the atom, -1 encoded as RealVal(-1)"""
+    for idx, (atom, k) in enumerate(d):
+        if atom.eq(n):
+            nd = d[:idx] + (((atom, k - 1),) if k > 1 else ()) + d[idx + 1:]
+            return None, nd
+    if d:
+        neg = _som(-n)
+        for idx, (atom, k) in enumerate(d):
+            if atom.eq(neg):
+                nd = d[:idx] + (((atom, k - 1),) if k > 1 else ()) + d[idx + 1:]
+                return z3.RealVal(-1), nd
+    return n, d
+
+
 def _som(n):
     return z3.simplify(n, som=True)
 
@@ -515,7 +585,19 @@ class SV:
                 return b if b.t == t else SV(b.n, b.d, b.c, t)
             if b.c == 1:
                 return a if a.t == t else SV(a.n, a.d, a.c, t)
-            return SV.norm(a.n * b.n, _den_mul(a.d, b.d), t)
+            # cancel a numerator that is (up to sign) an atom of the other operand's denominator
+            an, ad, bn, bd = a.n, a.d, b.n, b.d
+            if bd and a.c is None:
+                an, bd = _cancel(an, bd)
+            if ad and b.c is None:
+                bn, ad = _cancel(bn, ad)
+            if an is None and bn is None:
+                return SV.norm(z3.RealVal(1), _den_mul(ad, bd), t)
+            if an is None:
+                return SV.norm(bn, _den_mul(ad, bd), t)
+            if bn is None:
+                return SV.norm(an, _den_mul(ad, bd), t)
+            return SV.norm(an * bn, _den_mul(ad, bd), t)
         if op == "div":
             if b.c is not None:
                 if b.c == 0:
@@ -716,6 +798,8 @@ def prove_eq(ctx: Ctx, a, b, timeout_ms=20000, extra=()):
         return ("cex", m) if r == "sat" else ("unknown", None) if r == "unknown" else ("valid", None)
     n1, n2 = a.cross(b)
     diff = _som(n1 - n2)
+    if ctx.eqs and not z3.is_rational_value(diff):
+        diff = _som(ctx.subst(diff))
     if z3.is_rational_value(diff):
         STATS["obl_syntactic"] += 1
         if diff.numerator_as_long() == 0:
@@ -729,6 +813,17 @@ def prove_eq(ctx: Ctx, a, b, timeout_ms=20000, extra=()):
     r, m = _fresh_check([neg], timeout_ms)
     if r == "unsat":
         return "valid", None
+    # 1b. equalities implied by the path (x == y hidden behind tolerance tests) substituted
+    n_eqs = len(ctx.eqs)
+    ctx.close_equalities()
+    if len(ctx.eqs) > n_eqs:
+        diff = _som(ctx.subst(diff))
+        if z3.is_rational_value(diff) and diff.numerator_as_long() == 0:
+            return "valid", None
+        neg = diff != 0
+        r, m = _fresh_check([neg], timeout_ms)
+        if r == "unsat":
+            return "valid", None
     # 2. with the path condition
     r, m = _fresh_check(list(ctx.path) + list(extra) + [neg], timeout_ms)
     if r == "unsat":
